@@ -129,48 +129,36 @@ DEF_START = {"fn", "pub", "const", "type", "opaque", "test", "bench", "validator
 
 
 def split_definitions(toks):
-    """Cut a token list into top-level chunks: [(start, end)] index ranges, one per
-    definition (a definition starts at bracket depth 0 with a definition keyword or a
-    decorator `@`; comments directly before it belong to it)."""
+    """Cut a token list into top-level chunks [(start, end)], one per definition.  A
+    definition starts at bracket depth 0 with `pub`/`opaque`/`const`/`type`/`test`/`bench`/
+    `validator`/`use`/`@`, or `fn` followed by a name (an anonymous `fn(` is an expression),
+    unless the head of the current definition is still open (`@tag(1) pub opaque type`).
+    Comments directly before a definition belong to it."""
+    main = {"fn", "const", "type", "test", "bench", "validator", "use"}
     starts = []
     depth = 0
-    i = 0
+    head_open = False
     n = len(toks)
-    in_def_head = False
-    while i < n:
-        k, t, _ = toks[i]
-        if depth == 0 and not is_comment(toks[i]):
-            if (k == "kw" and t in DEF_START) or k == "at":
-                if not in_def_head:
+    for i, (k, t, _) in enumerate(toks):
+        if is_comment(toks[i]):
+            continue
+        if depth == 0:
+            is_start = k == "at" or (k == "kw" and t in DEF_START and (t != "fn" or (i + 1 < n and toks[i + 1][0] in ("name", "discard", "up"))))
+            if is_start:
+                if not head_open:
                     starts.append(i)
-                    in_def_head = True
-            # `pub fn`, `pub opaque type`, `@tag(1) pub type`: one head
-            if k == "kw" and t in ("fn", "const", "type", "test", "bench", "validator", "use"):
-                in_def_head = False if False else in_def_head
+                    head_open = True
+                if k == "kw" and t in main:
+                    head_open = False
         if k == "open":
             depth += 1
         elif k == "close":
-            depth -= 1
-            if depth == 0:
-                in_def_head = False
-        elif depth == 0 and k == "kw" and t == "use":
-            # imports have no closing bracket necessarily: end the head at the next line break
-            j = i + 1
-            while j < n and toks[j][2] == 0:
-                if toks[j][0] == "open":
-                    break
-                j += 1
-            if j >= n or toks[j][0] != "open":
-                in_def_head = False
-        elif depth == 0 and in_def_head and k not in ("kw", "at") and i + 1 < n and toks[i + 1][2] > 0 and _head_can_end(toks, i):
-            in_def_head = False
-        i += 1
+            depth = max(depth - 1, 0)
     if not starts:
         return [(0, n)] if n else []
-    # pull leading comments into the chunk that follows them
     cuts = []
-    for s in starts:
-        j = s
+    for st in starts:
+        j = st
         while j > 0 and is_comment(toks[j - 1]):
             j -= 1
         cuts.append(j)
@@ -180,17 +168,6 @@ def split_definitions(toks):
         if b > a:
             out.append((a, b))
     return out
-
-
-def _head_can_end(toks, i):
-    """a bracket-less definition (`const x = 1`, `type A = Int`, `use a/b`) ends at a line
-    end when the next token starts a definition"""
-    if i + 1 >= len(toks):
-        return True
-    k, t, _ = toks[i + 1]
-    if is_comment(toks[i + 1]):
-        return False
-    return (k == "kw" and t in DEF_START) or k == "at"
 
 
 def spans(src):
